@@ -101,6 +101,7 @@ pub struct BlobRec {
     pub key_raw: Vec<u8>,
     /// wrapping key raw bytes / password bytes / recipient *secret* key raw bytes
     pub secret: Vec<u8>,
+    pub by_reference: bool,
 }
 
 pub struct World<'p> {
@@ -716,6 +717,7 @@ impl<'p> World<'p> {
                 };
                 let Some(unseal_raw) = unseal_raw else { return self.skip("no-unseal-key-bytes") };
                 self.check_token_shape(bk, purpose, &text, &ft_bytes, &draws, nonce_b.is_some(), &cl);
+                self.cross_check_token(bk, purpose, &krec, &unseal_raw, &text, &cl, &aad_b);
                 if self.stats.samples.len() < 2 {
                     self.stats.samples.push(serde_json::json!({"op":"seal","backend":bk.name(),"purpose":purpose.name(),"token":truncate(&text, 120),"rng":rng.kind()}));
                 }
@@ -858,6 +860,111 @@ impl<'p> World<'p> {
             }
         } else if parts.payload.first() == Some(&0) {
             self.stats.bump("probe:nonce-leading-zero");
+        }
+    }
+
+    /// C03: every token the library emits is exactly what the specification prescribes for the
+    /// nonce it contains, as computed by the independent reference implementation.
+    fn cross_check_token(&mut self, bk: Bk, purpose: Purp, krec: &KeyRec, unseal_raw: &[u8], text: &str, cl: &Claims, aad: &[u8]) {
+        let f = bk.family();
+        let op = format!("seal-{}", purpose.name());
+        let iv = self.plan.iv.clone();
+        let Some((m, footer)) = refimpl::unseal(f, purpose, unseal_raw, text, aad, iv.as_ref()) else {
+            self.violate("C03", "reference-rejects-library-token", bk, &op, "", format!("the independent implementation does not accept this token: {}", truncate(text, 100)));
+            return;
+        };
+        self.stats.bump("crosscheck:reference-verified-token");
+        let same = match cl {
+            Claims::Raw(b) | Claims::Probe(b) => *b == m,
+            Claims::Json(v) => serde_json::from_slice::<serde_json::Value>(&m).ok().as_ref() == Some(v),
+            Claims::Reg(_) => serde_json::from_slice::<serde_json::Value>(&m).is_ok_and(|v| v.is_object()),
+        };
+        if !same {
+            self.violate("C03", "reference-decodes-differently", bk, &op, "", "the independent implementation recovers a different message from this token".into());
+            return;
+        }
+        // bit-exactness for the nonce the token contains (deterministic constructions only)
+        let Some(sk_raw) = krec.raw.as_ref() else { return };
+        let deterministic = purpose == Purp::Local || matches!(f, 2 | 4);
+        if deterministic {
+            let Some(parts) = TokParts::parse(text) else { return };
+            let nl = nonce_len(f, purpose);
+            if parts.payload.len() < nl {
+                return;
+            }
+            match refimpl::seal(f, purpose, sk_raw, &m, &footer, aad, &parts.payload[..nl], iv.as_ref()) {
+                Some((rt, _)) => {
+                    if rt != text {
+                        self.violate("C03", "not-bit-exact", bk, &op, "", format!("for the same key, nonce, message, footer and assertion the specification gives {} but the library produced {}", truncate(&rt, 90), truncate(text, 90)));
+                    } else {
+                        self.stats.bump("crosscheck:token-bit-exact");
+                    }
+                }
+                None => self.stats.bump("crosscheck:reference-seal-unsupported"),
+            }
+        }
+    }
+
+    /// C07: every blob the library writes is what the PASERK specification prescribes for the
+    /// nonce / salt / ephemeral key it embeds.
+    #[allow(clippy::too_many_arguments)]
+    fn cross_check_blob(&mut self, bk: Bk, wk: WrapKind, krec: &KeyRec, key_raw: &[u8], text: &str, wrap_secret: &[u8], unwrap_secret: &[u8], draws: &[Draw]) {
+        let f = bk.family();
+        if f == 1 && wk == WrapKind::Pke {
+            self.stats.bump("crosscheck:k1-seal-has-no-reference");
+            return;
+        }
+        let op = format!("wrap-{}-{}", wk.name(), krec.kind.name());
+        let iv = self.plan.iv.clone();
+        if let Some(cost) = if wk == WrapKind::Pw { pw_cost(text) } else { None } {
+            if !cost.within_budget() {
+                return;
+            }
+        }
+        match refimpl::unwrap(f, wk, krec.kind, text, unwrap_secret, iv.as_ref()) {
+            Some(k) if k == key_raw => self.stats.bump("crosscheck:reference-unwrapped-blob"),
+            Some(_) => {
+                self.violate("C07", "reference-unwraps-different-key", bk, &op, "", format!("the independent implementation unwraps a different key from {}", truncate(text, 100)));
+                return;
+            }
+            None => {
+                self.violate("C07", "reference-rejects-library-blob", bk, &op, "", format!("the independent implementation does not accept {}", truncate(text, 100)));
+                return;
+            }
+        }
+        // bit-exactness given the embedded / drawn entropy
+        let Some((_, data)) = faults::split_paserk(text) else { return };
+        let nist = f == 1 || f == 3;
+        let (entropy, params): (Option<Vec<u8>>, PwParams) = match wk {
+            WrapKind::Pie => {
+                let off = if nist { 48 } else { 32 };
+                (data.get(off..off + 32).map(|x| x.to_vec()), PwParams::Default)
+            }
+            WrapKind::Pw => {
+                if nist {
+                    let it = data.get(32..36).map(|x| u32::from_be_bytes(x.try_into().unwrap()));
+                    (data.get(..32).zip(data.get(36..52)).map(|(a, b)| [a, b].concat()), it.map(PwParams::Iter).unwrap_or(PwParams::Default))
+                } else {
+                    let p = data.get(16..32).map(|p| PwParams::Argon(u64::from_be_bytes(p[..8].try_into().unwrap()), u32::from_be_bytes(p[8..12].try_into().unwrap()), u32::from_be_bytes(p[12..].try_into().unwrap())));
+                    (data.get(..16).zip(data.get(32..56)).map(|(a, b)| [a, b].concat()), p.unwrap_or(PwParams::Default))
+                }
+            }
+            WrapKind::Pke => {
+                // the ephemeral secret is the last draw of the right size made inside the call
+                let want = if f == 3 { 48 } else { 32 };
+                (draws.iter().rev().find(|d| d.bytes.len() == want).map(|d| d.bytes.clone()), PwParams::Default)
+            }
+        };
+        let Some(entropy) = entropy else { return };
+        match refimpl::wrap(f, wk, krec.kind, key_raw, wrap_secret, &params, &entropy, iv.as_ref()) {
+            Some(rt) => {
+                if rt != text {
+                    self.violate("C07", "not-bit-exact", bk, &op, "", format!("for the same secrets and embedded nonce/salt/ephemeral key the specification gives {} but the library produced {}", truncate(&rt, 90), truncate(text, 90)));
+                } else {
+                    self.stats.bump("crosscheck:blob-bit-exact");
+                }
+            }
+            None => self.stats.bump("crosscheck:reference-wrap-unsupported"),
         }
     }
 
@@ -1063,7 +1170,11 @@ impl<'p> World<'p> {
         self.stats.bump(&format!("op:ref-seal:v{family}:{}", purpose.name()));
         match r {
             Some((text, unseal_raw)) => {
-                self.obs(&format!("refseal {text}"));
+                if purpose == Purp::Local || matches!(family, 2 | 4) {
+                    self.obs(&format!("refseal {text}"));
+                } else {
+                    self.obs(&format!("refseal <randomized signature, {} chars>", text.len()));
+                }
                 let rec = TokRec {
                     text: text.clone(),
                     family,
@@ -1149,7 +1260,8 @@ impl<'p> World<'p> {
                 if self.stats.samples.len() < 2 {
                     self.stats.samples.push(serde_json::json!({"op":"wrap","backend":bk.name(),"kind":wk.name(),"blob":truncate(&text,120)}));
                 }
-                let rec = BlobRec { text: text.clone(), family: bk.family(), wk, key_kind: krec.kind, key_raw, secret: unwrap_secret };
+                self.cross_check_blob(bk, wk, &krec, &key_raw, &text, &sec_raw, &unwrap_secret, &draws);
+                let rec = BlobRec { text: text.clone(), family: bk.family(), wk, key_kind: krec.kind, key_raw, secret: unwrap_secret, by_reference: false };
                 self.stored.entry(text).or_default().push(blob);
                 self.blobs.insert(blob, rec);
             }
@@ -1320,12 +1432,13 @@ impl<'p> World<'p> {
                 Out::Ok(raw) if raw == b.key_raw => {
                     self.stats.bump("unwrap:authentic-ok");
                 }
-                Out::Ok(raw) => self.violate("C05", "roundtrip-mismatch", bk, &op, &fclass, format!("unwrapped key differs from the wrapped one ({} vs {} bytes)", raw.len(), b.key_raw.len())),
+                Out::Ok(raw) => self.violate(if b.by_reference { "C07" } else { "C05" }, "roundtrip-mismatch", bk, &op, &fclass, format!("unwrapped key differs from the wrapped one ({} vs {} bytes)", raw.len(), b.key_raw.len())),
                 Out::Panic(p) => self.violate("C04", "panic", bk, "expose-unwrapped", &fclass, p),
                 Out::Err(e) => self.violate("C05", "unwrapped-key-not-serialisable", bk, &op, &fclass, format!("{e:?}")),
             },
-            (Out::Err(e), Some(_)) => {
-                self.violate("C05", "authentic-blob-rejected", bk, &op, &fclass, format!("exact blob with the right secret rejected: {e:?}; blob={}", truncate(&text, 100)));
+            (Out::Err(e), Some(b)) => {
+                let (p, c) = if b.by_reference { ("C07", "conforming-blob-rejected") } else { ("C05", "authentic-blob-rejected") };
+                self.violate(p, c, bk, &op, &fclass, format!("exact blob with the right secret rejected: {e:?}; blob={}", truncate(&text, 100)));
             }
             (Out::Ok(h), None) => {
                 let raw = be.key_raw(kk, &h).ok();
@@ -1367,7 +1480,7 @@ impl<'p> World<'p> {
                         None => return self.skip("pke-recipient-secret-unknown"),
                     }
                 }
-                let rec = BlobRec { text: text.clone(), family, wk, key_kind: krec.kind, key_raw: kraw, secret };
+                let rec = BlobRec { text: text.clone(), family, wk, key_kind: krec.kind, key_raw: kraw, secret, by_reference: true };
                 self.stored.entry(text).or_default().push(blob);
                 self.blobs.insert(blob, rec);
             }
